@@ -21,7 +21,7 @@ pub fn avoid_all() -> Avoid {
         unsub_in_group: false,
         group_stall: true,
         recycled_id: true,
-        persistent_unsub: false,
+        persistent_unsub: true,
     }
 }
 
